@@ -128,4 +128,33 @@ def mergeMultiply (qs : List QRec) : Option QRec :=
   | q0 :: rest =>
     rest.foldl (fun acc cur => acc.bind fun a => (makeMultiplier a cur).map (·.2)) (some q0)
 
+/-! ### derivation histories
+
+The factories are pure functions of the operand records.  `memoRun` models a factory that is fronted by
+a process-wide table (a memo) keyed by `key`: the k-th request of a history is answered from the table
+whenever an EARLIER request had the same key.  `Props.C17` proves that such a factory answers every
+history like the pure one iff the key determines the result, and that the key
+`(mode, bits, int_bits, is_signed)` does not (it forgets `max_val_po2`). -/
+
+/-- first entry stored under `k` -/
+def memoFind {κ β : Type} [DecidableEq κ] (k : κ) : List (κ × β) → Option β
+  | [] => none
+  | (k', b) :: t => if k' = k then some b else memoFind k t
+
+/-- answers of a memoised factory along a history of requests, starting from table `tbl` -/
+def memoRun {α β κ : Type} [DecidableEq κ] (key : α → κ) (f : α → β) :
+    List (κ × β) → List α → List β
+  | _, [] => []
+  | tbl, a :: rest =>
+    match memoFind (key a) tbl with
+    | some b => b :: memoRun key f tbl rest
+    | none => f a :: memoRun key f ((key a, f a) :: tbl) rest
+
+/-- the operand signature `(mode, bits, int_bits, is_signed)` (what `merge_factory.Maximum` compares,
+    without the name) -/
+def opKey4 (q : QRec) : Nat × Int × Int × Bool := (q.mode, q.bits, q.intBits, q.signed)
+
+/-- `IAdder().make_quantizer` over a history of operand pairs -/
+def adderHistory (h : List (QRec × QRec)) : List (Option QRec) := h.map fun p => makeAdder p.1 p.2
+
 end QKV
